@@ -330,11 +330,11 @@ Qed.
 
 Theorem wstep_no_panic : forall w call, snd (wstep fixed w call) <> OPanic.
 Proof.
-  intros w []; simpl.
+  intros w []; simpl; unfold w_add_input.
   - destruct (g_add_node _ _ _ _ _ _); simpl; congruence.
   - destruct (alist_get _ _); simpl; congruence.
   - congruence.
-  - destruct (g_add_edge _ _ _ _ _ _); simpl; congruence.
+  - destruct (alist_get _ _); simpl; congruence.
   - destruct (alist_get _ _); simpl; congruence.
   - destruct (w_compile_outcome w o ord sord) as [[e E]|[w2 E]]; rewrite E; [congruence|].
     apply g_compile_no_panic.
